@@ -380,6 +380,61 @@ def run_rank(case, rank, world, epoch=None, seed=None, dataset=None):
     return digest_log(out, rec.log)
 
 
+class SplitRun:
+    """run_rank in two phases that may be separated by anything else the process does: make() constructs the sampler,
+    use(epoch) = set_epoch(epoch), len(sampler), list(sampler).  The draw spies are installed during both phases only
+    (not in between); the record of the FIRST use carries the spy events of the construction like run_rank's, later
+    uses the events of their own call."""
+
+    def __init__(self, case, rank, world):
+        self.case, self.rank, self.world = case, rank, world
+        self.rec = Recorder()
+        self.s, self.failed = None, None
+
+    def make(self):
+        import torch
+        gen = None
+        with self.rec:
+            try:
+                if self.case["kind"] == "rand":
+                    gen = torch.Generator().manual_seed(self.case["seed"])
+                self.s = build(self.case, self.rank, self.world, generator=gen)
+            except AssertionError:
+                self.failed = "AssertionError"
+            except Runaway:
+                self.failed = "RUNAWAY"
+            except Exception as e:  # noqa
+                self.failed = type(e).__name__ + ": " + str(e)[:200]
+        self.kept = list(self.rec.keep)      # the generators of the construction stay alive (their ids stay theirs)
+
+    def use(self, epoch):
+        out = {"result": "ok", "stream": [], "len": None, "seeds": [], "draws": [], "alien": False, "random_": []}
+        rec, s = self.rec, self.s
+        with rec:
+            if self.failed is None:
+                try:
+                    if epoch is not None and hasattr(s, "set_epoch"):
+                        s.set_epoch(epoch)
+                    out["len"] = int(len(s))
+                    stream = []
+                    for i in s:
+                        stream.append(int(i))
+                        if len(stream) > 100000:
+                            raise Runaway()
+                    out["stream"] = stream
+                except AssertionError:
+                    out["result"] = "AssertionError"
+                except Runaway:
+                    out["result"] = "RUNAWAY"
+                except Exception as e:  # noqa
+                    out["result"] = type(e).__name__ + ": " + str(e)[:200]
+            else:
+                out["result"] = self.failed
+        digest_log(out, rec.log[rec.base:])
+        rec.base = len(rec.log)
+        return out
+
+
 def same_run(a, b):
     return (a["result"] == b["result"] and a["len"] == b["len"] and a["stream"] == b["stream"]
             and a["seeds"] == b["seeds"] and a["draws"] == b["draws"]
